@@ -167,6 +167,20 @@ def run_history(h):
     return out
 
 
+def sort_probe(ids):
+    """natsort exactly as optimise_segment_group uses it, on Include / Member objects"""
+    import natsort
+    if ids and isinstance(ids[0], int):
+        objs = [neuroml.Member(segments=i) for i in ids]
+        once = natsort.natsorted(objs, key=lambda x: x.segments)
+        twice = natsort.natsorted(once, key=lambda x: x.segments)
+        return {"once": [o.segments for o in once], "twice": [o.segments for o in twice]}
+    objs = [neuroml.Include(segment_groups=i) for i in ids]
+    once = natsort.natsorted(objs, key=lambda x: x.segment_groups)
+    twice = natsort.natsorted(once, key=lambda x: x.segment_groups)
+    return {"once": [o.segment_groups for o in once], "twice": [o.segment_groups for o in twice]}
+
+
 def main():
     payload = json.load(sys.stdin)
     res, hres = [], []
@@ -176,7 +190,7 @@ def main():
             res.append(run_case(c))
         for h in payload.get("histories", []):
             hres.append(run_history(h))
-    print(json.dumps({"results": res, "histories": hres}))
+    print(json.dumps({"results": res, "histories": hres, "sorts": [sort_probe(l) for l in payload.get("sorts", [])]}))
 
 
 if __name__ == "__main__":
